@@ -432,7 +432,13 @@ class KroneckerProductTriangularLinearOperator(KroneckerProductLinearOperator, _
         left_tensor: Optional[Float[Tensor, "... O N"]] = None,
     ) -> Union[Float[Tensor, "... N P"], Float[Tensor, "... N"], Float[Tensor, "... O P"], Float[Tensor, "... O"]]:
         # For triangular components, using triangular-triangular substition should generally be good
-        return self._inv_matmul(right_tensor=right_tensor, left_tensor=left_tensor)
+        is_vector = right_tensor.ndim == 1
+        if is_vector:
+            right_tensor = right_tensor.unsqueeze(-1)
+        res = self._inv_matmul(right_tensor=right_tensor, left_tensor=left_tensor)
+        if is_vector:
+            res = res.squeeze(-1)
+        return res
 
 
 class KroneckerProductDiagLinearOperator(DiagLinearOperator, KroneckerProductTriangularLinearOperator):
